@@ -299,7 +299,13 @@ pub fn mutate_tree(v: &mut Value, src: &mut Src, budget: usize) -> Option<String
                     Some(format!("grow-bytes:{}", target))
                 }
                 Value::Text(t) => {
-                    let fill = if src.bool() { "é" } else { "a" };
+                    // one repeated character (also joiners, marks, 4-byte emoji), or two alternating:
+                    // replacing what was there in a third of the cases so that the text STARTS with it
+                    let fills: [&str; 10] = ["a", "é", "\u{200d}", "\u{20ac}\u{200d}", "\u{200d}\u{20ac}", "\u{1f600}", "\u{301}", "\u{fe0f}", "\u{0}", "a\u{1f468}\u{200d}"];
+                    let fill = fills[src.below(fills.len())];
+                    if src.chance(1, 3) {
+                        t.clear();
+                    }
                     while t.len() + fill.len() <= target {
                         t.extend_from_slice(fill.as_bytes());
                     }
